@@ -1197,27 +1197,39 @@ def run(ctx):
         sc = data.get('input', data)
         run_one(ctx, data.get('stream', 'binary-random'), sc, oracle=data.get('oracle', True))
     B = Batch(ctx)
-    stream_binary_coalesced(ctx, B)
-    stream_binary_huge(ctx, B)
-    stream_binary_cuts(ctx, B)
-    stream_binary_random(ctx, B)
-    stream_binary_malformed(ctx, B)
-    stream_lines_scripted(ctx, B)
-    stream_handoff_real(ctx, B, 'real-client')
-    stream_handoff_real(ctx, B, 'real-server')
-    stream_handoff_cuts(ctx, B)
-    stream_handoff_bigtail(ctx, B)
-    stream_handoff_stub(ctx, B)
-    stream_binary_unparsable(ctx, B)
-    stream_limit(ctx, B)
-    stream_reentrant(ctx, B)
-    B.flush()
+    errors = []
+
+    def guarded(fn, *a):
+        # an exception of the harness itself in one stream must not hide the other streams
+        try:
+            fn(ctx, B, *a)
+            B.flush()
+        except Exception:
+            import traceback
+            errors.append('%s: %s' % (fn.__name__, traceback.format_exc()[-1500:]))
+            B.items = []
+    guarded(stream_binary_coalesced)
+    guarded(stream_binary_huge)
+    guarded(stream_binary_cuts)
+    guarded(stream_binary_random)
+    guarded(stream_binary_malformed)
+    guarded(stream_lines_scripted)
+    guarded(stream_handoff_real, 'real-client')
+    guarded(stream_handoff_real, 'real-server')
+    guarded(stream_handoff_cuts)
+    guarded(stream_handoff_bigtail)
+    guarded(stream_handoff_stub)
+    guarded(stream_binary_unparsable)
+    guarded(stream_limit)
+    guarded(stream_reentrant)
     for t in SERIALIZER_NOTES[:3]:
         ctx.note(t)
     for st, k in sorted(SKIPPED.items()):
         ctx.note('stream %s: %d scenarios skipped by the harness (an internal it reaches for has moved)' % (st, k))
     if SKIPPED and ctx.cases == 0:
         raise RuntimeError('no stream of C04 could run: %r' % (SKIPPED,))
+    if errors:
+        raise RuntimeError('harness fault in %d stream(s):\n%s' % (len(errors), '\n'.join(errors)))
 
 
 def replay(ctx, data):
